@@ -75,7 +75,7 @@ var encryptErrExceptions = []ErrException{
 
 func runC09(c *Ctx) {
 	p, r := c.P, c.R
-	r.Explanation = "Decides the fail-closed and secure-default clauses structurally: every return of every Node.Process implementation of the repository carries a nil event or a nil error (never both non-nil); inside the encrypt walk no fallible call's error is dropped and each is returned (itself or wrapped) on every path of its error branch, so it reaches Process's error result; rotation payloads are consumed; DefaultFilterOperations is the literal table {public: none, sensitive: encrypt, secret: redact}, a missing tag yields (unknown, unknown) and convertToOperation is the identity on the declared constants; the full decision table of filterValue over classification x operation (no mutation iff public or none; secret/sensitive -> encrypt | hmac | redact per operation, anything else an error; every other classification redacted) including which early exits skip protection; NoOperation never survives for sensitive/secret unless it came from the override map; the handler inventory of the three reflective dispatchers; and that struct values handed to the field walk are settable or replaced by an addressable copy. It does not decide that the reflective walk reaches every string of every payload shape (reflection is opaque), nor cryptographic secrecy. C09.tagpair: every on-the-spot classification is computed from the tag that belongs to the very value being filtered (field i / the same PointerTag, in classification,operation order; write-back pointer and tracking entry agree; bare payloads are secret). C09.skip: closed vocabulary of skip conditions in the walkers; C09.mark: keys are marked filtered only in the map that directly holds the value; a payload that is itself a map is tracked for the final sweep."
+	r.Explanation = "Decides the fail-closed and secure-default clauses structurally: every return of every Node.Process implementation of the repository carries a nil event or a nil error (never both non-nil); inside the encrypt walk no fallible call's error is dropped and each is returned (itself or wrapped) on every path of its error branch, so it reaches Process's error result; rotation payloads are consumed; DefaultFilterOperations is the literal table {public: none, sensitive: encrypt, secret: redact}, a missing tag yields (unknown, unknown) and convertToOperation is the identity on the declared constants; the full decision table of filterValue over classification x operation (no mutation iff public or none; secret/sensitive -> encrypt | hmac | redact per operation, anything else an error; every other classification redacted) including which early exits skip protection; NoOperation never survives for sensitive/secret unless it came from the override map; the handler inventory of the three reflective dispatchers; and that struct values handed to the field walk are settable or replaced by an addressable copy. It does not decide that the reflective walk reaches every string of every payload shape (reflection is opaque), nor cryptographic secrecy. C09.tagpair: every on-the-spot classification is computed from the tag that belongs to the very value being filtered (field i / the same PointerTag, in classification,operation order; write-back pointer and tracking entry agree; bare payloads are secret). C09.skip: closed vocabulary of skip conditions in the walkers; C09.mark: keys are marked filtered only in the map that directly holds the value; a payload that is itself a map is tracked for the final sweep. C09.shortcut: the untouched early return is taken only if every class's effective operation is none. C09.nilelem: no reflect.Value method that panics on the zero Value is reachable from an Elem() without a validity test (nil elements and fields are skipped, not a crash). C09.mark key-unescaped: tracking and pointerstructure agree on the key a pointer names."
 	r.NotDecided = []string{"completeness of the reflective walk over all payload shapes (arm priority, pointer depth, arrays, shapes falling into the 'nothing reasonable yet' defaults)", "cryptographic secrecy of the wrapper"}
 	c.errControls()
 
@@ -106,6 +106,9 @@ func runC09(c *Ctx) {
 		return
 	}
 	paths := c.enum("C09.process", proc, PathOpts{})
+
+	// --- C09.shortcut: the untouched early return is taken only when every effective operation is none
+	c.ruleShortcut(proc)
 
 	// --- C09.rotate
 	nRot := 0
@@ -155,8 +158,10 @@ func runC09(c *Ctx) {
 	c.ruleNoPass()
 	c.ruleHandlers()
 	c.ruleSkip()
-	c.ruleMarkFiltered()
+	c.ruleMarkFiltered("C09.mark")
 	c.ruleIgnoreIdentity()
+	c.ruleNilElem("C09.nilelem")
+	c.ruleSweepStoresFiltered("C09.value")
 	c.ruleOptionAliasing()
 	c.ruleSettable()
 
@@ -232,6 +237,42 @@ func runC09(c *Ctx) {
 	}
 	if ff := c.Fn("C09.handlers", PkgEncrypt, "Filter", "filterField"); ff != nil {
 		c.ruleTaggableMapTracked(ff, "filterField:taggable-map-field-tracked")
+		// the plain (not Taggable) map field has its own arm: some successful path
+		// establishes kind == Map for the field, never hands it to filterTaggable, and tracks it
+		plainField := false
+		for _, pa := range c.enum("C09.handlers", ff, PathOpts{}) {
+			rv := pa.RetVals()
+			if rv == nil || !isNilConst(rv[len(rv)-1]) {
+				continue
+			}
+			mp, f2 := hasAtom(pa, func(at Atom) bool {
+				return at.Op == "eq" && at.L.Is("Call", "(reflect.Value).Kind") && at.R.Is("Const", kMapS2) && !strings.Contains(at.L.String(), "(reflect.Value).Index")
+			})
+			if !f2 || !mp {
+				continue
+			}
+			// ... and did not require the field to be Taggable
+			if tg, f1 := hasAtom(pa, func(at Atom) bool {
+				return at.Op == "true" && at.L.Op == "Extract" && at.L.Name == "1" && at.L.Args[0].Is("Assert", "encrypt.Taggable") && !strings.Contains(at.L.String(), "(reflect.Value).Index")
+			}); f1 && tg {
+				continue
+			}
+			tagg, tracked := false, false
+			for _, s := range pa.CallsOn() {
+				switch stepCallName(s) {
+				case "(*filters/encrypt.Filter).filterTaggable":
+					tagg = true
+				case "(*filters/encrypt.trackedMaps).trackMap":
+					if s.Depth == 0 {
+						tracked = true
+					}
+				}
+			}
+			if tracked && !tagg {
+				plainField = true
+			}
+		}
+		r.Check(plainField, "C09.handlers", "filterField:plain-map-field", p.Pos(ff.Pos()), "a struct field that is a map and not Taggable is tracked for the final sweep", "no successful path of filterField establishes 'field is a map' without the Taggable arm and tracks it: an untagged map field (map[string]interface{}, map[string]string) would be forwarded with every value in plaintext")
 	}
 	r.Check(plainMap, "C09.handlers", "Process:plain-map-payload", p.Pos(proc.Pos()), "a payload that is a map and not Taggable is tracked for the final sweep", "no successful path of Process establishes 'payload is a map, not Taggable' and tracks it: an untagged map payload (map[string]interface{}, map[string]string) would be forwarded with every value in plaintext")
 	r.Check(nOK > 0, "C09.handlers", "Process:sweep-before-return", p.Pos(proc.Pos()), "every successful return of a filtered copy is preceded by processUnfiltered (or the IgnoreTypes shortcut)", "no successful filtered return found")
@@ -512,7 +553,9 @@ func (c *Ctx) ruleFilterValueTable() {
 			}
 		}
 		failed := !isNilConst(rv[0])
-		nilTag, _ := hasAtom(pa, func(at Atom) bool { return at.Op == "eq" && at.L.IsParam("3:classificationTag") && at.R.Is("Const", "nil") })
+		nilTag, _ := hasAtom(pa, func(at Atom) bool {
+			return at.Op == "eq" && at.L.IsParam("3:classificationTag") && at.R.Is("Const", "nil")
+		})
 		if nilTag {
 			if !failed || len(acts) > 0 {
 				r.Bad(rule, "filterValue:nil-tag", p.InstrPos(pa.End), "a missing classification does not fail")
@@ -607,7 +650,9 @@ func (c *Ctx) ruleFilterValueTable() {
 			}
 		}
 		if !pos && neg >= 4 { // none, encrypt, hmac, redact all excluded
-			cl, _ := hasAtom(pa, func(at Atom) bool { return at.Op == "eq" && isClass(at.L) && (at.R.Is("Const", `"secret"`) || at.R.Is("Const", `"sensitive"`)) })
+			cl, _ := hasAtom(pa, func(at Atom) bool {
+				return at.Op == "eq" && isClass(at.L) && (at.R.Is("Const", `"secret"`) || at.R.Is("Const", `"sensitive"`))
+			})
 			if cl {
 				nBadOp++
 				if isNilConst(rv[0]) {
@@ -719,14 +764,14 @@ func (c *Ctx) ruleHandlers() {
 	kMap, kStruct := c.reflectKind("Map"), c.reflectKind("Struct")
 	k := func(v int64) string { return fmt.Sprintf("kind==%d", v) }
 	handlers := map[string]string{
-		"(*filters/encrypt.Filter).filterValue":                 "filterValue",
-		"(*filters/encrypt.Filter).filterSlice":                 "filterSlice",
-		"(*filters/encrypt.Filter).filterField":                 "filterField",
-		"(*filters/encrypt.Filter).filterTaggable":              "filterTaggable",
-		"(*filters/encrypt.trackedMaps).trackMap":               "trackMap",
-		"filters/encrypt.newTrackedMaps":                        "newTrackedMaps",
-		"(*filters/encrypt.trackedMaps).processUnfiltered":      "processUnfiltered",
-		"(reflect.Value).SetMapIndex":                           "SetMapIndex",
+		"(*filters/encrypt.Filter).filterValue":            "filterValue",
+		"(*filters/encrypt.Filter).filterSlice":            "filterSlice",
+		"(*filters/encrypt.Filter).filterField":            "filterField",
+		"(*filters/encrypt.Filter).filterTaggable":         "filterTaggable",
+		"(*filters/encrypt.trackedMaps).trackMap":          "trackMap",
+		"filters/encrypt.newTrackedMaps":                   "newTrackedMaps",
+		"(*filters/encrypt.trackedMaps).processUnfiltered": "processUnfiltered",
+		"(reflect.Value).SetMapIndex":                      "SetMapIndex",
 	}
 	type disp struct {
 		recv, name string
@@ -873,7 +918,10 @@ func (c *Ctx) ruleSettable() {
 			continue
 		}
 		// classify per call site over all paths
-		type verdict struct{ ok, bad int; why string }
+		type verdict struct {
+			ok, bad int
+			why     string
+		}
 		per := map[ssa.Instruction]*verdict{}
 		arm := map[ssa.Instruction]string{}
 		for _, pa := range c.enum(rule, fn, PathOpts{}) {
@@ -909,7 +957,9 @@ func (c *Ctx) ruleSettable() {
 					}
 				}
 				// name the arm by the enclosing dispatcher condition
-				if pol, found := hasAtom(pa, func(at Atom) bool { return at.Op == "true" && strings.Contains(at.L.String(), "Assert[encrypt.Taggable]") }); found && pol {
+				if pol, found := hasAtom(pa, func(at Atom) bool {
+					return at.Op == "true" && strings.Contains(at.L.String(), "Assert[encrypt.Taggable]")
+				}); found && pol {
 					if arm[s.In] == "" {
 						arm[s.In] = "taggable-arm"
 					}
@@ -1236,6 +1286,7 @@ func runC10(c *Ctx) {
 	c.ruleNoResweep()
 	c.rulePointerValues()
 	c.ruleExactLeafTypes()
+	c.ruleMarkFiltered("C10.mark")
 
 	// --- C10.none
 	nProc := 0
@@ -1289,7 +1340,7 @@ func mentionsOutside(t *Term, s string, cut ssa.Value) bool {
 
 func runC16(c *Ctx) {
 	p, r := c.P, c.R
-	r.Explanation = "Decides the key-selection and framing clauses: encrypt() encrypts exactly its data argument with the per-event wrapper option when present, else the filter's wrapper, and returns \"encrypted:\" + RawURL base64 of the marshalled blob; hmacSha256() derives a 32-byte key with NewDerivedReader(ctx, w, 32, salt, info) where w / salt / info are each the per-event option when non-nil else the filter's field (not swapped), MACs exactly its data argument with HMAC(SHA-256, key) and returns \"hmac-sha256:\" + RawURL base64; Process derives the per-event wrapper from NewEventWrapper(ctx, ef.Wrapper, EventId()) under the lock and hands the three per-event options to every value operation; all reads of Wrapper/HmacSalt/HmacInfo and the cryptographic call lie in one critical section, and Rotate / rotation payloads write them under the write lock (copying salt and info). Decrypt round-trip, HKDF and AEAD correctness are third-party semantics and not decided. Also the derivation shape: NewDerivedReader = LimitedReader{hkdf.New(sha256.New, checked key bytes of the wrapper argument, salt, info), lenLimit}; NewEventWrapper = aead wrapper keyed with ed25519.GenerateKey(NewDerivedReader(ctx, wrapper, >=32, f(eventId), g(eventId))) with every step checked, so the per-event key is a function of (wrapper key, event id) only. C16.forward: every walker hands its own options on."
+	r.Explanation = "Decides the key-selection and framing clauses: encrypt() encrypts exactly its data argument with the per-event wrapper option when present, else the filter's wrapper, and returns \"encrypted:\" + RawURL base64 of the marshalled blob; hmacSha256() derives a 32-byte key with NewDerivedReader(ctx, w, 32, salt, info) where w / salt / info are each the per-event option when non-nil else the filter's field (not swapped), MACs exactly its data argument with HMAC(SHA-256, key) and returns \"hmac-sha256:\" + RawURL base64; Process derives the per-event wrapper from NewEventWrapper(ctx, ef.Wrapper, EventId()) under the lock and hands the three per-event options to every value operation; all reads of Wrapper/HmacSalt/HmacInfo and the cryptographic call lie in one critical section, and Rotate / rotation payloads write them under the write lock (copying salt and info). Decrypt round-trip, HKDF and AEAD correctness are third-party semantics and not decided. Also the derivation shape: NewDerivedReader = LimitedReader{hkdf.New(sha256.New, checked key bytes of the wrapper argument, salt, info), lenLimit}; NewEventWrapper = aead wrapper keyed with ed25519.GenerateKey(NewDerivedReader(ctx, wrapper, >=32, f(eventId), g(eventId))) with every step checked, so the per-event key is a function of (wrapper key, event id) only. C16.forward: every walker hands its own options on. C16.event snapshot: an event with its own wrapper uses salt and info taken together with that wrapper. C16.raw: a value reached through a pointer tag is turned into bytes only by identity-preserving conversions."
 	r.NotDecided = []string{"decrypt round-trip and HKDF/AEAD correctness (go-kms-wrapping, x/crypto)", "determinism of derived wrappers beyond the arguments passed"}
 	c.lockControls()
 	must := c.MustLocks()
@@ -1467,12 +1518,91 @@ func runC16(c *Ctx) {
 			want := map[string]string{"filters/encrypt.WithWrapper": "Extract[0](" + tb.Of(nw[0].(ssa.Value)).String() + ")", "filters/encrypt.WithInfo": "Call[invoke encrypt.EventWrapperInfo.HmacInfo]", "filters/encrypt.WithSalt": "Call[invoke encrypt.EventWrapperInfo.HmacSalt]"}
 			for name, w := range want {
 				cs := callsTo(proc, func(n string, cc *ssa.CallCommon) bool { return n == name })
-				ok := len(cs) == 1 && strings.HasPrefix(tb.Of(cs[0].Common().Args[0]).String(), w)
 				pos := p.Pos(proc.Pos())
 				if len(cs) > 0 {
 					pos = p.InstrPos(cs[0])
 				}
-				r.Check(ok, "C16.event", "Process:"+name, pos, "per-event option built from the payload's own value", "per-event option "+name+" is not built from the matching per-event value")
+				if name == "filters/encrypt.WithWrapper" {
+					ok := len(cs) == 1 && strings.HasPrefix(tb.Of(cs[0].Common().Args[0]).String(), w)
+					r.Check(ok, "C16.event", "Process:"+name, pos, "per-event option built from the payload's own value", "per-event option "+name+" is not built from the matching per-event value")
+					continue
+				}
+				// salt / info: the payload's own value, or else the filter's — taken in the SAME critical
+				// section as the wrapper the event wrapper is derived from. Leaving the fallback to the
+				// value operations (which read the filter's field when the option is nil) pairs this
+				// event's wrapper with whatever salt/info a Rotate has installed meanwhile.
+				field := map[string]string{"filters/encrypt.WithInfo": "HmacInfo", "filters/encrypt.WithSalt": "HmacSalt"}[name]
+				if len(cs) != 1 {
+					r.Bad("C16.event", "Process:"+name, pos, fmt.Sprintf("%d calls of %s in Process (expected 1)", len(cs), name))
+					continue
+				}
+				var leaves []ssa.Value
+				var walk func(v ssa.Value, seen map[ssa.Value]bool)
+				walk = func(v ssa.Value, seen map[ssa.Value]bool) {
+					if seen[v] {
+						return
+					}
+					seen[v] = true
+					if ph, ok := v.(*ssa.Phi); ok {
+						for _, e := range ph.Edges {
+							walk(e, seen)
+						}
+						return
+					}
+					leaves = append(leaves, v)
+				}
+				walk(cs[0].Common().Args[0], map[ssa.Value]bool{})
+				own, fallback, other := false, false, ""
+				for _, lf := range leaves {
+					lt := tb.Of(lf).String()
+					switch {
+					case strings.HasPrefix(lt, w):
+						own = true
+					case strings.Contains(lt, "Field["+field+"](Param(0:ef))"):
+						fallback = true
+					default:
+						other = lt
+					}
+				}
+				r.Check(own && other == "", "C16.event", "Process:"+name, pos, "per-event option built from the payload's own value (or the filter's when it has none)", "per-event option "+name+" is not built from the matching per-event value: "+other)
+				// the filter's field is read in the critical section of the wrapper
+				sameSection := false
+				if fallback {
+					sameSection = true
+					var release ssa.Instruction
+					eachInstr(proc, func(in ssa.Instruction) {
+						if ci, ok := in.(ssa.CallInstruction); ok {
+							if op := lockOpOf(ci.Common()); op != nil && !op.Acquire && op.Class == "encrypt.Filter.l" && dominatesInstr(nw[0], in) && (release == nil || dominatesInstr(in, release)) {
+								release = in
+							}
+						}
+					})
+					nLoads := 0
+					eachInstr(proc, func(in ssa.Instruction) {
+						ld, ok := in.(*ssa.UnOp)
+						if !ok || ld.Op != token.MUL {
+							return
+						}
+						fa, ok := ld.X.(*ssa.FieldAddr)
+						if !ok || fa.X != ssa.Value(proc.Params[0]) {
+							return
+						}
+						if fa.X.Type().Underlying().(*types.Pointer).Elem().Underlying().(*types.Struct).Field(fa.Field).Name() != field {
+							return
+						}
+						if !tb.Of(cs[0].Common().Args[0]).ContainsValue(ld) {
+							return
+						}
+						nLoads++
+						if _, held := must.At(in)["encrypt.Filter.l"]; !held || release == nil || dominatesInstr(release, in) {
+							sameSection = false
+						}
+					})
+					if nLoads == 0 {
+						sameSection = false
+					}
+				}
+				r.Check(fallback && sameSection, "C16.event", "Process:"+name+":snapshot", pos, "when the payload has no "+field+" the filter's is taken in the critical section in which the event wrapper is derived", "when the payload brings no "+field+" the option stays nil and every value operation falls back to the filter's "+field+" at the time of THAT value: a Rotate while the event is processed pairs the wrapper derived from the old filter wrapper with the new "+field+" (key material that is neither the old nor the new)")
 			}
 		}
 		// every value operation in Process receives opts...
@@ -1529,6 +1659,7 @@ func runC16(c *Ctx) {
 	r.Floor("C16.atomic", 6)
 	c.ruleDerive()
 	c.ruleOptionsForwarded()
+	c.ruleTaggedRaw("C16.raw")
 }
 
 // derivesFromOpts: the variadic argument is the opts slice (make + appends of
